@@ -101,26 +101,28 @@ MIN_COUNTERS = {
 
 
 def plan(tier, seed):
+    # thorough: 16 shards = one wave on 16 cores, bounded by time (secs per
+    # shard); the case numbers are upper limits
     q = tier == 'quick'
-    secs = 45 if q else 600
+    secs = 45 if q else 450
     shards = []
-    for kind, total, parts in (('lift_m', 60000 if q else 7_000_000, 5 if q else 6),
-                               ('lift_b', 60000 if q else 7_000_000, 5 if q else 6),
-                               ('laws', 300000 if q else 30_000_000, 4)):
+    for kind, total, parts in (('lift_m', 60000 if q else 7_000_000, 5 if q else 4),
+                               ('lift_b', 60000 if q else 7_000_000, 5 if q else 4),
+                               ('laws', 300000 if q else 30_000_000, 4 if q else 3)):
         for p, (f, n) in enumerate(split(total, parts)):
             shards.append({'name': f'{kind}{p}', 'mode': 'nrt', 'kind': kind,
                            'first_case': f, 'n': n, 'secs': secs,
-                           'hard_timeout': secs + 120})
+                           'hard_timeout': secs + 150})
     for p, (f, n) in enumerate(split(30000 if q else 4_000_000, 2)):
         shards.append({'name': f'hist{p}', 'mode': 'nrt', 'kind': 'hist',
                        'first_case': f, 'n': n, 'secs': secs,
-                       'hard_timeout': secs + 120})
+                       'hard_timeout': secs + 150})
     for p, (f, n) in enumerate(split(6000 if q else 300_000, 2)):
         shards.append({'name': f'reent{p}', 'mode': 'nrt', 'kind': 'reent',
                        'first_case': f, 'n': n, 'secs': secs,
-                       'hard_timeout': secs + 120})
+                       'hard_timeout': secs + 150})
     shards.append({'name': 'meta', 'mode': 'nrt', 'kind': 'meta', 'first_case': 0,
-                   'n': 1, 'secs': secs, 'hard_timeout': secs + 120})
+                   'n': 1, 'secs': secs, 'hard_timeout': secs + 150})
     return shards
 
 
